@@ -286,7 +286,7 @@ def run(ctx):
     ctx.level = "fault_enumeration"
     ctx.rule = ("for each of %d memoization scenarios x {no cache, 64 KiB cache}: EVERY mutating file-system op of the "
                 "fault-free log x every applicable fault kind (crash before; crash after create = empty file; crash mid-"
-                "write = first half on disk; error on open (also of every file READ while memoizing)/mkdir/unlink; ENOSPC on first write leaving a truncated file); "
+                "write = first half on disk, or all but the last 1 / 8 bytes; error on open (also of every file READ while memoizing)/mkdir/unlink; ENOSPC on first write leaving a truncated file); "
                 "thorough adds every second fault during recovery. A case is distinct/non-trivial by its (scenario, fault "
                 "kind, per-call outcome and body-count vector) observation." % len(SCENARIOS))
     ctx.assumptions += ["process death and reported I/O errors only; no post-crash reordering of completed writes",
